@@ -498,6 +498,18 @@ def wl_order(ctx, idx, rng):
         oth2 = other if isinstance(other, (Phase, u.Quantity)) else other * u.cycle
         ctx.call(o, uf, oth2, p, where=f"np.{uf.__name__}(other, phase)")
         ctx.call(o, uf, p, oth2, where=f"np.{uf.__name__}(phase, other)")
+        # the same comparison written into a caller-provided boolean array
+        try:
+            shp_ = np.broadcast_shapes(np.shape(p), np.shape(oth2))
+        except ValueError:
+            shp_ = None
+        if shp_ is not None:
+            mask = np.zeros(shp_, dtype=bool)
+            r_, e_ = ctx.call(o, uf, p, oth2, where=f"np.{uf.__name__}(phase, other, out=mask)", out=mask)
+            if e_ is None and r_ is not mask:
+                ctx.violation(o, f"np.{uf.__name__}(..., out=mask) did not return the given array", None, {"what": "out_identity"})
+            mask2 = np.ones(shp_, dtype=bool)
+            ctx.call(o, uf, oth2, p, where=f"np.{uf.__name__}(other, phase, out=mask)", out=(mask2,))
     elif method in ("sort", "argsort"):
         kw = {} if axis == -1 and rng.random() < 0.5 else {"axis": axis}
         ctx.call(o, getattr(p, method), where=method, **kw)
